@@ -101,6 +101,12 @@ structure LoginRes where
 
 def loginPat : String := "(?i)password:|\\n\\r?[^#> ]+[>#] ?$"
 
+/-- the device side of a login dialogue (harness/c15/sim.go, the preamble with its `<!>` markers):
+the n-th line received is echoed with its line end and followed by the n-th part; after the parts,
+the standard answer echo + prompt -/
+def echoDev (parts : List Str) : Device Nat where
+  step n s := (n + 1, s ++ ['\n'] ++ (if n < parts.length then parts.getD n [] else prompt))
+
 section login
 variable {σ : Type} (D : Device σ)
 
